@@ -2772,6 +2772,8 @@ static void struct_members(Token **rest, Token *tok, Type *ty) {
       if (equal(tok, ":")) {
         if (!is_integer(mem->ty))
           error_tok(tok, "bit-field has non-integer type");
+        if (mem->ty->is_atomic)
+          error_tok(tok, "bit-field has atomic type");
         mem->is_bitfield = true;
         mem->bit_width = const_expr(&tok, tok->next);
       }
